@@ -23,6 +23,9 @@ pub enum Variant {
     NsSlice,
     NsBuf(usize),
     NsAsync(usize),
+    /// buffered / async source that reports end-of-input once at this offset and then continues
+    BufEofOnce(usize),
+    AsyncEofOnce(usize),
 }
 
 pub const VARIANTS: [Variant; 8] = [
@@ -227,6 +230,7 @@ macro_rules! drive {
 pub fn run_variant(v: Variant, input: &[u8], cfg: u8) -> Result<Summary, String> {
     let script = match v {
         Variant::Buf(p) | Variant::Async(p) | Variant::NsBuf(p) | Variant::NsAsync(p) => Script::pieces(p),
+        Variant::BufEofOnce(k) | Variant::AsyncEofOnce(k) => Script { eof_once_at: Some(k), ..Script::whole() },
         _ => Script::whole(),
     };
     let horizon = input.len() + 16;
@@ -237,13 +241,13 @@ pub fn run_variant(v: Variant, input: &[u8], cfg: u8) -> Result<Summary, String>
                 apply_cfg(reader.config_mut(), cfg);
                 drive!(input, reader, Some(reader.read_event()), false, true)
             }
-            Variant::Buf(_) => {
+            Variant::Buf(_) | Variant::BufEofOnce(_) => {
                 let mut reader = Reader::from_reader(Source::new(input, &script));
                 apply_cfg(reader.config_mut(), cfg);
                 let mut buf = Vec::new();
                 drive!(input, reader, { buf.clear(); Some(reader.read_event_into(&mut buf)) }, false, false)
             }
-            Variant::Async(_) => {
+            Variant::Async(_) | Variant::AsyncEofOnce(_) => {
                 let mut reader = Reader::from_reader(Source::new(input, &script));
                 apply_cfg(reader.config_mut(), cfg);
                 let mut buf = Vec::new();
@@ -317,6 +321,34 @@ fn sweep(ctx: &Ctx, ln: u32, sp: &Space, slice_cfgs: &[u8], other_cfgs: &[u8], c
     });
 }
 
+/// "Eof is final" against a source that comes back to life: end-of-input is reported once at every
+/// offset of every input, after which the source delivers the rest.
+fn sweep_eof_once(ctx: &Ctx, ln: u32, sp: &Space, cfgs: &[u8]) {
+    ctx.layer(&format!("{}.eof_once", sp.name), ln, sp.total, sp.desc.clone(), |i, acc| {
+        let mut input = Vec::new();
+        sp.get(i, &mut input);
+        for k in 0..input.len() {
+            for v in [Variant::BufEofOnce(k), Variant::AsyncEofOnce(k)] {
+                for &cfg in cfgs {
+                    acc.evaluations += 1;
+                    acc.traces += 1;
+                    match run_variant(v, &input, cfg) {
+                        Ok(s) => {
+                            acc.transitions += s.calls as u64 + s.accessor_calls;
+                            acc.nontrivial(h64(&(&input, k)));
+                        }
+                        Err(what) => acc.violation(
+                            (ln, i),
+                            format!("input {:?} cfg [{}] {:?}: {}", lossy(&input), cfg_show(cfg), v, what),
+                            json!({"input": bytes_json(&input), "cfg": cfg, "eof_once_at": k, "async": matches!(v, Variant::AsyncEofOnce(_))}),
+                        ),
+                    }
+                }
+            }
+        }
+    });
+}
+
 /// 64 byte values: all ASCII punctuation that matters, blanks, NUL, high bytes, BOM bytes.
 pub static BYTES64: [u8; 64] = *b"<>/!-[]?\"'= \t\r\n&#;:aDxmlOCTYPEdoctyp019AZ_.{}()*+,@\\^|$%\x00\x7f\x80\xbb\xbf\xef\xfe\xff";
 
@@ -335,7 +367,8 @@ pub fn run(ctx: &Ctx) {
         "inputs: every string over ALL 256 byte values up to length 2 (x128 configurations) and length 3 (x3 configurations; \
          quick: a 64-byte subset); every string over the 14-byte markup alphabet (x128 configurations on the slice reader, \
          x4 on the others); atom sequences; construct contexts. Variants: Reader and NsReader over slice, buffered (1-byte \
-         pieces, whole) and hand-polled async (1-byte pieces) sources. Checked on every execution under catch_unwind with \
+         pieces, whole) and hand-polled async (1-byte pieces) sources; plus buffered/async sources that report end-of-input once \
+         at every offset and then deliver the rest (Eof must stay final). Checked on every execution under catch_unwind with \
          debug assertions + overflow checks on: no panic; Eof within 2*len+3 calls; three further calls after Eof / after a \
          syntax error return Eof; buffer_position monotone and <= length; error_position <= buffer_position; every payload \
          accessor of every event invoked (names, attributes x4 modes to exhaustion + 2, unescape, trimming, CDATA escapes, \
@@ -368,12 +401,18 @@ pub fn run(ctx: &Ctx) {
         ln += 1;
     }
     sweep(ctx, ln, &context("Init.bom", &[b"", b"\xEF\xBB", b"\xEF\xBB\xBF", b"\xFE\xFF", b"\xFF\xFE", b"\x00<\x00?", b"<\x00?\x00"], b"<?xml >a\x00", t.pick(4, 5), &[b""], false), &three, &three, false);
+    sweep_eof_once(ctx, ln + 1, &raw("A.raw", SIGMA_M, t.pick(4, 5)), &three);
+    sweep_eof_once(ctx, ln + 2, &atoms("C.atoms", ATOMS_C, t.pick(2, 3)), &three);
 }
 
 pub fn replay(case: &Value) -> Result<(), String> {
     let input = bytes_from_json(&case["input"]);
     let cfg = case["cfg"].as_u64().unwrap_or(DEFAULT as u64) as u8;
-    let v = VARIANTS[case["variant"].as_u64().unwrap_or(0) as usize];
+    let v = match case.get("eof_once_at").and_then(|k| k.as_u64()) {
+        Some(k) if case["async"].as_bool() == Some(true) => Variant::AsyncEofOnce(k as usize),
+        Some(k) => Variant::BufEofOnce(k as usize),
+        None => VARIANTS[case["variant"].as_u64().unwrap_or(0) as usize],
+    };
     println!("input: {:?} cfg [{}] variant {:?}", lossy(&input), cfg_show(cfg), v);
     let mut obs = Vec::new();
     run_slice(&input, cfg, 3, &mut obs);
